@@ -29,7 +29,7 @@ class Project:
 		self.sc.write_config(self.config)
 		self.state: dict[str, int] = {}
 		for i, m in enumerate(pool['modules']):
-			self.set_variant(m, 0, 10**9)
+			self.set_variant(m, (pool.get('initial') or {}).get(m, 0), 10**9)
 		self.processes = 0
 
 	def set_variant(self, module: str, variant: int, delta_ns: int) -> int:
